@@ -46,6 +46,16 @@ def e1_cases(variants):
                             continue
                         probs.append(dict(kind="nonconvex", fam=fam, n=n, box=box, start=start,
                                           var=v))
+            # objective undefined (nan) on part of the search ray; user limit on the step
+            for nn in ((1, 2) if n == 1 else ()):
+                for mls in (1, 2, 5, 20):
+                    for st in ("in", "face"):
+                        yield dict(kind="nonconvex", fam="xlogx", n=nn, box="box", start=st,
+                                   var=v, part="e1", maxls=mls, maxfun=3000, maxcor=3)
+            for pr in probs:
+                if pr.get("kind") == "nonconvex":
+                    for ms in (0.2, 0.05):
+                        yield dict(pr, part="e1", maxls=20, maxfun=3000, maxcor=3, maxstep=ms)
             # configuration letter: the packaged projected-gradient unit scaler in use
             for pr in probs:
                 for mc in (1, 3):
@@ -67,8 +77,9 @@ def cases(tier, variants):
 
 
 def monotone(vals):
+    """index of the first step that is not 'non-increasing' (a nan value is not <=)"""
     for k in range(len(vals) - 1):
-        if vals[k + 1] > vals[k]:
+        if not (vals[k + 1] <= vals[k]):
             return k
     return None
 
@@ -113,7 +124,8 @@ def run(case):
         res = minimize_lbfgsb(x0=p.x0.copy(), fun=obs.fun, jac=obs.jac, bounds=p.bounds,
                               maxcor=case["maxcor"], maxls=case["maxls"], maxfun=case["maxfun"],
                               maxiter=30, ftol=1e-12, gtol=1e-9, callback=cb,
-                              gradient_scaler=scaler)
+                              gradient_scaler=scaler,
+                              **({"max_steplength": case["maxstep"]} if case.get("maxstep") else {}))
     except core.CaseTimeout:
         raise
     except Exception as e:
